@@ -217,12 +217,45 @@ def run_scalar(c, out):
         out["res"] = err(e)
 
 
+def run_near_history(c, out):
+    """One source, a sequence of near-identical targets, every cached entry point called for each target IN ORDER in this one
+    process (lru_cache of crop_source_area; JSON file cache of get_area_slices with cache_geometry_slices=True), then the
+    uncached computations of the same requests."""
+    import tempfile
+
+    import pyresample
+    from pyresample.resampler import crop_source_area
+
+    def oc(f):
+        try:
+            xs, ys = f()
+            return sl4(xs, ys)
+        except Exception as e:
+            return err(e)
+    steps = [{} for _ in c["tgts"]]
+    for st, t in zip(steps, c["tgts"]):
+        st["frac"] = fractional(mk_area(c["src"], "src"), mk_area(t, "tgt"))
+        st["crop_cached"] = oc(lambda: crop_source_area(mk_area(c["src"], "src"), mk_area(t, "tgt"))[1:])
+    with tempfile.TemporaryDirectory() as cache_dir:
+        with pyresample.config.set(cache_geometry_slices=True, cache_dir=cache_dir):
+            for st, t in zip(steps, c["tgts"]):
+                st["gas_cached"] = oc(lambda: tuple(mk_area(c["src"], "src").get_area_slices(mk_area(t, "tgt"))))
+    for st, t in zip(steps, c["tgts"]):
+        st["crop_fresh"] = oc(lambda: slicer_mod.create_slicer(mk_area(c["src"], "src"), mk_area(t, "tgt")).get_slices())
+        st["gas_fresh"] = oc(lambda: mk_area(c["src"], "src").get_area_slices(mk_area(t, "tgt")))
+    out["steps"] = steps
+
+
 results = []
 for c in req["cases"]:
     out = {}
     try:
         if c["api"] == "scalar":
             run_scalar(c, out)
+            results.append(out)
+            continue
+        if c["api"] == "near_history":
+            run_near_history(c, out)
             results.append(out)
             continue
         src = mk_area(c["src"], "src")
@@ -259,7 +292,7 @@ def outcome(f):
 
 with tempfile.TemporaryDirectory() as cache_dir:
     for c, out in reversed(list(zip(req["cases"], results))):
-        if c["api"] == "scalar" or "setup_err" in out or not c.get("history"):
+        if c["api"] in ("scalar", "near_history") or "setup_err" in out or not c.get("history"):
             continue
         try:
             if c["api"] == "slicer":
